@@ -210,5 +210,8 @@ def witness(entry):
 
 
 def main(tier):
-    return common.run_space_check("C17", tier, jobs(tier), RULE, ASSUME, budget_s=110 if tier == "quick" else 1500,
+    js = jobs(common.level("C17", tier))
+    if common.level("C17", tier) == "deep":
+        js = common.widen(js, by=(1, 2))
+    return common.run_space_check("C17", tier, js, RULE, ASSUME, budget_s=110 if tier == "quick" else 1500,
                                   confirm=confirm, witness=witness)
